@@ -319,12 +319,15 @@ class SimRNG:
         if nz.size < m:
             raise ValueError('Fewer non-zero entries in p than size')
         pol = self._pick(('nr_lowest', 'nr_highest', 'nr_first'))
+        # adversarial subsets are built from outcomes no PRNG calls impossible (q >= P_IMPOSSIBLE, as for every other policy); entries below
+        # that are used only when fewer than m possible ones exist (the draw is then forced on the real sampler too)
+        tiny = q[nz] < P_IMPOSSIBLE
         if pol == 'nr_lowest':
-            return nz[np.argsort(q[nz], kind='stable')[:m]], pol
+            return nz[np.lexsort((q[nz], tiny))[:m]], pol
         if pol == 'nr_highest':
             return nz[np.argsort(-q[nz], kind='stable')[:m]], pol
         if pol == 'nr_first':
-            return nz[:m], pol
+            return nz[np.lexsort((np.arange(nz.size), tiny))[:m]], pol
         # faithful: Efraimidis-Spirakis keys give successive weighted sampling without replacement
         u = self._gen().random(q.size)
         with np.errstate(divide='ignore', invalid='ignore'):
